@@ -28,6 +28,29 @@ CLAIMS = {
             "real code; recorded read sequences over arbitrary inputs are validated by TLC with concrete bytes.",
             TB + "Wrapped file object is io.BytesIO; read(0) written explicitly and negative sizes are outside the "
             "statement.", "3 C05"),
+    'C03': ("TLA+ spec (Vbs/Blocks) model-checked by TLC; recorded writer/reader executions with concrete bytes "
+            "trace-validated by TLC (Trace_Vbs)",
+            "TLC exhaustively checks the implementation-shaped writer lifecycle and the reader at small P (layout = "
+            "Frame/Finals(Frame), read-back = records). At real size every recorded execution (records written, file "
+            "bytes, every __next__ outcome) is decided by TLC from the concrete bytes: quick = boundary and sampled "
+            "single-record lengths x blocked/unblocked x class/function API + biased multi-record lists; thorough = every "
+            "length 1..MAX+2.",
+            TB + "File objects are io.BytesIO; MAX_VBS_RECORD_LENGTH is read from config.py at run time.", "3 C03"),
+    'C09': ("TLA+ spec (Vbs Truncate action) model-checked by TLC; every cut offset of generated real files read with "
+            "the real reader and trace-validated by TLC",
+            "TLC exhaustively checks TruncInv (a cut file reads as exactly the complete records, then "
+            "terminator/short-prefix/short-record) for every cut of every small writer file; at real size every offset "
+            "0..len of each generated VBS / blocked file is cut, read with VbsReader and the recorded outcome sequence is "
+            "decided by TLC (outcome sets: stop or library error at a cut, nothing else).",
+            TB + "Files are seeded samples (exhaustive over offsets per file). IPM-level cuts are covered once the "
+            "ISO8583 spec is bound (C06/C07 machinery).", "3 C09"),
+    'C11': ("TLA+ lifecycle spec (Vbs writer with explicit file position) model-checked by TLC; every TLC-generated "
+            "history replayed on the real writer (BytesIO and real files) and trace-validated by TLC",
+            "TLC exhaustively checks LayoutInv/ReadBackInv/OnceProp over histories write^{0..2};(close|exit)^{1..3}, "
+            "blocked and unblocked; the unguarded design yields the D9 counterexample (spec/MC_Vbs_unguarded.cfg). Every "
+            "history of the model is dumped by TLC, replayed on the real VbsWriter with boundary record lengths, and "
+            "the recorded ops + file bytes + read-back are decided by TLC.",
+            TB + "Model record lengths are mapped to real boundary lengths (harness/c11.py LENMAP).", "3 C11"),
 }
 
 PENDING = "check not built yet in this round (specification under construction; see DESIGN.md section 3)"
